@@ -190,7 +190,10 @@ func newCmd_DumpCar() *cli.Command {
 				if limit > 0 && numNodesPrinted >= limit {
 					break
 				}
-				kind := iplddecoders.Kind(block.RawData()[1])
+				kind, err := iplddecoders.GetKind(block.RawData())
+				if err != nil {
+					return fmt.Errorf("failed to get kind of object %s: %w", block.Cid(), err)
+				}
 
 				doPrint := filter.has(int(kind)) || filter.empty()
 				if doPrint {
